@@ -107,7 +107,11 @@ type c07Dev struct {
 }
 
 // value ledger read from the summary: (type, minor) -> total, free, used
-type c07Row struct{ t, f, u c07Vals }
+type c07Row struct {
+	t, f, u c07Vals
+	fp      [c07D]bool // key present in the free entry
+	hasF    bool       // the free map has an entry for the minor
+}
 type c07Ledger struct {
 	rows map[[2]int]*c07Row
 	pods map[[2]int]map[int]c07Vals // (type, pod) -> minor -> values
@@ -127,6 +131,10 @@ func c07ReadDR(t int, dr deviceResources, rows map[[2]int]*c07Row, which int) {
 			row.t = v
 		case 1:
 			row.f = v
+			row.hasF = true
+			for k := 0; k < c07D; k++ {
+				_, row.fp[k] = rl[c07Res[t][k]]
+			}
 		default:
 			row.u = v
 		}
@@ -442,6 +450,7 @@ type c07Case struct {
 	infoMin [3][]int // minors of nodeDevice.deviceInfos (last updateNodeDevice)
 	live    [3]map[int][]c07Alloc
 	exact   bool // every removal so far carried the recorded allocation and no malformed add happened
+	sched   bool // the Lean history predicate histSched on the harness' own record: every accepted add was an allocator-consistent commit on the ledger of that moment, no refresh went below what is in use
 	histX   bool // the Lean history predicate histExact, computed here on the harness' own record: every accepted add had one entry per minor, every accepted removal carried exactly the recorded list
 	loose   bool // malformed stream: raw adds / heterogeneous devices => allocation oracle only tags
 	cur     *c07Ledger
@@ -458,7 +467,20 @@ func (c *c07Case) emitLedger() *c07Ledger {
 	}
 	// the decidable hypotheses of the Lean theorems, evaluated on the harness' own record of the history:
 	// histWFB (amounts >= 0, inventories are maps: true by construction of the Go types) and histExact
-	c.h.Obs("x 1 %d", vB(c.histX))
+	c.h.Obs("x 1 %d %d", vB(c.histX), vB(c.sched))
+	if c.sched {
+		c.h.Tag("hyp:histSched")
+		// sched_no_overcommit, evaluated on the implementation: in such a history no device is over-committed
+		for _, key := range l.rowKeys() {
+			row := l.rows[key]
+			for k := 0; k < c07D; k++ {
+				if row.u[k] > row.t[k] {
+					c.h.Fail("C07:overcommit-in-sched-history", "type %d minor %d dim %d used %d > total %d although every add was an allocator-consistent commit and no refresh went below the in-use amount", key[0], key[1], k, row.u[k], row.t[k])
+					break
+				}
+			}
+		}
+	}
 	if c.histX {
 		c.h.Tag("hyp:histExact")
 	} else {
@@ -485,6 +507,21 @@ func (c *c07Case) noteAdd(t, pod int, al []c07Alloc) {
 	}
 	if !c07DistinctMinors(al) {
 		c.histX = false
+		c.sched = false
+	}
+	// allocator-consistent on the ledger before the op: the device has a free entry that exposes every key of the
+	// entry with at least that amount
+	for _, a := range al {
+		row := c.cur.rows[[2]int{t, a.minor}]
+		if row == nil || !row.hasF {
+			c.sched = false
+			continue
+		}
+		for k := 0; k < c07D; k++ {
+			if a.vec[k] >= 0 && (!row.fp[k] || a.vec[k] > row.f[k]) {
+				c.sched = false
+			}
+		}
 	}
 	c.live[t][pod] = append([]c07Alloc(nil), al...)
 }
@@ -647,6 +684,23 @@ func (c *c07Case) applyInventory(invalidate bool) {
 	}
 	h.Op("ref %d %s", n, strings.Join(toks, " "))
 	before := c.cur
+	// histSched: the new inventory does not go below what is in use
+	for _, key := range before.rowKeys() {
+		row := before.rows[key]
+		var nt c07Vals
+		for _, d := range c.inv[key[0]] {
+			if d.minor == key[1] && d.healthy && !invalidate {
+				for k := 0; k < c07D; k++ {
+					nt[k] = d.res.val(k)
+				}
+			}
+		}
+		for k := 0; k < c07D; k++ {
+			if row.u[k] > nt[k] {
+				c.sched = false
+			}
+		}
+	}
 	if h.Guard(func() {
 		if invalidate {
 			c.cache.invalidateNodeDevice(dev)
@@ -1254,7 +1308,26 @@ func (c *c07Case) doAlloc() (int, []c07Alloc) {
 		}
 		h.Tag("entry:AutopilotAllocator.Allocate")
 		res := c07ResultOf(t, out[c07Types[t]], failed)
-		c.obsAlloc(res, true)
+		covTarget := nd
+		if q.view != nil {
+			h.Guard(func() {
+				nd.lock.RLock()
+				defer nd.lock.RUnlock()
+				var rr, pp map[schedulingv1alpha1.DeviceType]deviceResources
+				rr = map[schedulingv1alpha1.DeviceType]deviceResources{}
+				pp = map[schedulingv1alpha1.DeviceType]deviceResources{}
+				if len(q.view.required) > 0 {
+					rr[c07Types[t]] = c07DR(t, q.view.required)
+				}
+				if len(q.view.preempt) > 0 {
+					pp[c07Types[t]] = c07DR(t, q.view.preempt)
+				}
+				if al.requestsPerInstance != nil {
+					covTarget = al.filterNodeDevice(rr, pp)
+				}
+			})
+		}
+		c.obsAlloc(res, true, covTarget, t)
 		// oracle: the shape the statement gives to a request
 		q.req = podReq
 		desired := 1
@@ -1368,7 +1441,7 @@ func (c *c07Case) doAlloc() (int, []c07Alloc) {
 	for _, s := range viewLines {
 		h.Obs("%s", s)
 	}
-	c.obsAlloc(res, mode == 0)
+	c.obsAlloc(res, mode == 0, target, t)
 	desired := q.desired
 	if desired == 0 {
 		desired = 1
@@ -1385,7 +1458,7 @@ func (c *c07Case) doAlloc() (int, []c07Alloc) {
 	return t, c.toCommit(q, res)
 }
 
-func (c *c07Case) obsAlloc(res c07Result, ordered bool) {
+func (c *c07Case) obsAlloc(res c07Result, ordered bool, target *nodeDevice, t int) {
 	if !res.ok {
 		c.h.Obs("alloc fail")
 		return
@@ -1399,6 +1472,29 @@ func (c *c07Case) obsAlloc(res c07Result, ordered bool) {
 		return
 	}
 	c.h.Obs("alloc ok %d %s", len(ms), vIntsI(ms))
+	// hypothesis `chosenCovered` of no_overcommit: every chosen device exposes (in the free map the allocator read)
+	// every resource name the per-instance request carries
+	cov := true
+	for i, m := range res.minors {
+		free, ok := target.deviceFree[c07Types[t]][m]
+		if !ok {
+			continue
+		}
+		for name := range res.raw[i].Resources {
+			if _, has := free[name]; !has {
+				cov = false
+			}
+		}
+	}
+	c.h.Obs("cov %d", vB(cov))
+	if cov {
+		c.h.Tag("hyp:chosenCovered")
+	} else {
+		c.h.Tag("hyp:not-chosenCovered")
+		if !c.loose {
+			c.h.Fail("C07:assumption-covered", "main stream: a chosen device of type %d does not expose a requested resource name (generator assumption of no_overcommit broken)", t)
+		}
+	}
 }
 
 func (c *c07Case) toCommit(q *c07Request, res c07Result) []c07Alloc {
@@ -1453,7 +1549,7 @@ func TestVerifC07(t *testing.T) {
 		if r == nil {
 			continue
 		}
-		c := &c07Case{h: h, r: r, cache: newNodeDeviceCache(), exact: true, histX: true, nextPod: 1, cur: &c07Ledger{rows: map[[2]int]*c07Row{}, pods: map[[2]int]map[int]c07Vals{}}}
+		c := &c07Case{h: h, r: r, cache: newNodeDeviceCache(), exact: true, histX: true, sched: true, nextPod: 1, cur: &c07Ledger{rows: map[[2]int]*c07Row{}, pods: map[[2]int]map[int]c07Vals{}}}
 		for t := 0; t < 3; t++ {
 			c.live[t] = map[int][]c07Alloc{}
 		}
@@ -1567,10 +1663,17 @@ func TestVerifC07(t *testing.T) {
 							oldG[tt] = c.genRawAllocs(tt)
 						}
 					}
-					c.doUpdate("update", p, oldG, newG, true, true, false)
+					newAssigned, newTerm := true, false
+					if r.Chance(1, 8) { // the pod lost its node (multi-scheduler clean-up): deletePod(old object)
+						newAssigned, what = false, "new-unassigned"
+					} else if c.loose && what != "same" && r.Chance(1, 3) {
+						// the annotation changes in the very update that reports the pod terminated: deletePod(NEW object)
+						newTerm, what = true, "terminated-changed"
+					}
+					c.doUpdate("update", p, oldG, newG, true, newAssigned, newTerm)
 					h.Tag("op:update-changed")
 					h.Tag("update:" + what)
-					if len(newG) > 0 && c.exact && r.Chance(1, 3) { // the informer resyncs: the same object twice
+					if len(c.liveGroups(p)) > 0 && c.exact && r.Chance(1, 3) { // the informer resyncs: the same object twice
 						c.doReannotate(p, c.liveGroups(p))
 						h.Tag("op:update-same")
 					}
